@@ -29,7 +29,8 @@ NON_DATETIMES = ["", " ", "x", "None", "null", "2022", "2022-01", "2022-01-01", 
 def describe(tier):
     b = BOUNDS[tier]
     return {
-        "rule": f"instants: EVERY second of both DST switch days and their neighbours of the years {b['switch_years'] if tier == 'quick' else '1996..2037'}; "
+        "rule": f"(the partitions rotate through {len(PROCESS_TZ)} process time zones set with TZ/tzset - the verdicts must not depend on where the process runs) "
+                f"instants: EVERY second of both DST switch days and their neighbours of the years {b['switch_years'] if tier == 'quick' else '1996..2037'}; "
                 f"the +-{b['hour_window']} s window around EVERY whole hour of EVERY day 1996-01-01..2037-12-31"
                 + ("; EVERY whole minute of every day" if b["all_minutes"] else "") +
                 "; the range edges. notations: for the critical instants (local 00:00:00 and 06:00:00 +-1 s on both switch days, the days "
@@ -50,18 +51,23 @@ def describe(tier):
     }
 
 
+# the verdicts are about instants and German law, not about where the process runs: the partitions rotate through the
+# process time zone (POSIX TZ strings, no zone database needed; None = whatever the environment has, UTC in this sandbox)
+PROCESS_TZ = [None, "CET-1CEST,M3.5.0,M10.5.0/3", "EST5EDT,M3.2.0,M11.1.0", "IST-5:30", "NZST-12NZDT,M9.5.0,M4.1.0/3"]
+
+
 def plan(tier, seed):
     b = BOUNDS[tier]
     items = []
     for y in b["switch_years"]:
         for m in (3, 10):
-            items.append({"fam": "switch", "year": y, "month": m})
-    for y in YEARS:
-        items.append({"fam": "hours", "year": y, "window": b["hour_window"]})
+            items.append({"fam": "switch", "year": y, "month": m, "tz": PROCESS_TZ[(y + m) % len(PROCESS_TZ)]})
+    for k, y in enumerate(YEARS):
+        items.append({"fam": "hours", "year": y, "window": b["hour_window"], "tz": PROCESS_TZ[(k + 1) % len(PROCESS_TZ)]})
         if b["all_minutes"]:
             for half in (0, 1):
-                items.append({"fam": "minutes", "year": y, "half": half})
-        items.append({"fam": "notations", "year": y, "step": b["offset_step"]})
+                items.append({"fam": "minutes", "year": y, "half": half, "tz": PROCESS_TZ[(k + half) % len(PROCESS_TZ)]})
+        items.append({"fam": "notations", "year": y, "step": b["offset_step"], "tz": PROCESS_TZ[(k + 2) % len(PROCESS_TZ)]})
     items.append({"fam": "strings", "what": "list"})
     items.append({"fam": "strings", "what": "boundary"})
     for first in range(len(GARBAGE_ALPHABET)):
@@ -200,6 +206,29 @@ def _critical_instants(y):
 
 
 def run_item(item):
+    import os
+    import time
+
+    tz = item.get("tz")
+    before = os.environ.get("TZ")
+    if tz:
+        os.environ["TZ"] = tz
+        time.tzset()
+    try:
+        r = _run_item(item)
+        if tz:
+            r.stat("partitions_with_process_tz_not_utc")
+        return r
+    finally:
+        if tz:
+            if before is None:
+                os.environ.pop("TZ", None)
+            else:
+                os.environ["TZ"] = before
+            time.tzset()
+
+
+def _run_item(item):
     worker_init()
     r = Result()
     fam = item["fam"]
